@@ -174,6 +174,15 @@ def _own_key_is_counted(t, counter, key_text):
                 return ast.copy_location(ast.Constant(value=True), n)
             return n
 
+        def visit_Call(self, n):
+            self.generic_visit(n)
+            # C.get(K, 0) on the per-sample counter: the count, 0 for a sample that was never counted - what C[K] denotes in the rule's
+            # reading of C as a Counter
+            if isinstance(n.func, ast.Attribute) and n.func.attr == "get" and U(n.func.value) == counter and len(n.args) == 2 and not n.keywords \
+                    and isinstance(n.args[1], ast.Constant) and n.args[1].value == 0 and not isinstance(n.args[1].value, bool):
+                return ast.copy_location(ast.Subscript(value=n.func.value, slice=n.args[0], ctx=ast.Load()), n)
+            return n
+
         def visit_BoolOp(self, n):
             self.generic_visit(n)
             if isinstance(n.op, ast.And):
@@ -253,7 +262,7 @@ def r3(ctx):
         # no explicit set: the new-sample arm may test the remaining count directly (`not remaining[sample] < k`), which is the same
         # predicate for every candidate's sample (each has at least one remaining plate, so it is a key of the counter)
         txt = " ".join(U(p_[1]) for p_ in ps)
-        if f"{remc}[" in txt:
+        if f"{remc}[" in txt or f"{remc}.get(" in txt:
             count_form = True
             insuff = (f"<{remc}[s] < k>", True, f"{remc}[sample] < self.k")
     if insuff is None:
@@ -378,8 +387,8 @@ def r4(ctx):
     want_unobs = Nn.b(parse_expr("not P.is_observed"))
     want_out = Nn.b(parse_expr(f"P.plate_id not in {C06.BATCH}"))
     want_in = Nn.b(parse_expr(f"P.plate_id in {C06.BATCH}"))
-    up_cases = C06.candidate_cases(ctx, f, top_stmt, kw["unobserved_plates"])
-    bp_cases = C06.candidate_cases(ctx, f, top_stmt, kw["batch_plates"])
+    up_cases = C06.candidate_cases(ctx, f, top_stmt, kw["unobserved_plates"], inner=pc[0])
+    bp_cases = C06.candidate_cases(ctx, f, top_stmt, kw["batch_plates"], inner=pc[0])
     bad = []
     for case, (root, filt, keys) in up_cases.items():
         want = {want_unobs, want_out} if case == "nonempty" else {want_unobs}
